@@ -217,7 +217,7 @@ def r11_8(prog: Program, rep: Report, rule="R11.8"):
     ident = cached = evald = False
     for p, r in P.returns(P.paths_of(prog, ev)):
         gs = p.guards()
-        notref = any(pol and g[0] == "cmp" and g[1] in ("isnot", "!=") and T.is_call_to(g[2], "builtins.type") and g[2][2] == (ref,) and T.refname(g[3]) == "typing.ForwardRef" for g, pol in gs) or any((not pol) and T.is_call_to(g, "builtins.isinstance") and g[2][:1] == (ref,) for g, pol in gs)
+        notref = any((not pol) and g[0] == "cmp" and g[1] in ("is", "==") and (T.is_call_to(g[2], "builtins.type") and g[2][2] == (ref,) or g[2] == ("attr", ref, "__class__")) and T.refname(g[3]) == "typing.ForwardRef" for g, pol in gs) or any((not pol) and T.is_call_to(g, "builtins.isinstance") and g[2][:1] == (ref,) for g, pol in gs)
         if notref and r == ref:
             ident = True
         if r == ("attr", ref, "__forward_value__") and any(pol and g == ("attr", ref, "__forward_evaluated__") for g, pol in gs):
